@@ -261,7 +261,8 @@ fn build(c: &Case, values: &[Vec<u8>]) -> std::io::Result<Vec<u8>> {
         6 => {
             // new + two batches (addresses, then tuples), capacity reserved in between
             let items: Vec<(u8, &[u8])> = c.tlvs.iter().zip(values).map(|(t, v)| (t.named.map(|i| u8::from(TYPES[i])).unwrap_or(t.kind), v.as_slice())).collect();
-            Builder::new(cmd | Version::Two, proto | fam).write_payloads([addr])?.reserve_capacity(100).write_payloads(items)?.build()
+            // (a length that was stated and then withdrawn is not in force)
+            Builder::new(cmd | Version::Two, proto | fam).set_length(7u16).write_payloads([addr])?.reserve_capacity(100).set_length(None).write_payloads(items)?.build()
         }
         _ => {
             // batch of tuples, explicit (correct) length set up front
